@@ -393,6 +393,9 @@ func (st *c08State) batch(vals []uint32) {
 		out, err := e.Bytes()
 		if st.parseOut(route, out, err, vals) && st.expectNums(route, 2+2*n, vals) {
 			first := append([]c08Num(nil), st.nums...)
+			// the start point of the path is a coordinate like any other
+			st.judge(route+"/start", kind, b32f(vals[0]), first[0].n, first[0].f)
+			st.judge(route+"/start", kind, b32f(vals[0]), first[1].n, first[1].f)
 			var e2 encode.Encoder
 			e2.HighResolutionCoordinates = hi
 			e2.StartPath(0, first[0].f, first[1].f)
